@@ -2673,6 +2673,141 @@ fn slice_decoders(env: &Env, src: &mut Src<'_>) -> CaseResult {
         .label(format!("type:{n}")).label(format!("outcome:{outcome}")).label(format!("len:{}", len)).label(format!("class:{cname}")))
 }
 
+/// Conversions that build bit arrays from integers and bit vectors, and the lossless re-layout of a
+/// bit array as 32-bit Galois-field words (what the malicious shuffle hashes): `try_from(u128)`
+/// accepts exactly the integers of at most BITS bits (its documentation) and yields the value
+/// with those bits, `truncate_from` keeps the low BITS bits, `try_from(Vec<Boolean>)` accepts
+/// exactly BITS items, and the words of `Vec<Gf32Bit>::try_from(ba)` concatenate to the
+/// zero-extended encoding of the array.
+fn conversions(env: &Env, src: &mut Src<'_>) -> CaseResult {
+    fn enc<B: Serializable>(b: &B) -> Vec<u8> {
+        let mut g = GenericArray::<u8, B::Size>::default();
+        b.serialize(&mut g);
+        g.to_vec()
+    }
+    fn ref_bytes(v: u128, bits: usize, size: usize) -> Vec<u8> {
+        let m = if bits >= 128 { v } else { v & ((1u128 << bits) - 1) };
+        let mut out = m.to_le_bytes().to_vec();
+        out.resize(size.max(16), 0);
+        out.truncate(size);
+        out
+    }
+    fn gen_u128(src: &mut Src<'_>, bits: usize) -> (u128, &'static str) {
+        let r = (u128::from(src.below(u64::MAX)) << 64) | u128::from(src.below(u64::MAX));
+        let top = if bits >= 128 { u128::MAX } else { (1u128 << bits) - 1 };
+        match src.below(8) {
+            0 => (0, "zero"),
+            1 => (top, "max"),
+            2 => (top.wrapping_add(1), "max+1"),
+            3 => (top.wrapping_add(2), "max+2"),
+            4 => (u128::MAX, "u128::MAX"),
+            5 => (r & top, "random-in-range"),
+            6 => (1u128 << src.below(128), "single-bit"),
+            _ => (r, "random"),
+        }
+    }
+    fn small<B>(env: &Env, name: &'static str, src: &mut Src<'_>) -> Result<(&'static str, &'static str, u64), CaseErr>
+    where
+        B: BooleanArray + Serializable + U128Conversions + TryFrom<u128> + TryFrom<Vec<Boolean>> + TryInto<Vec<Gf32Bit>> + PartialEq + std::fmt::Debug + Copy,
+    {
+        let bits = <B as SharedValue>::BITS as usize;
+        let size = <B as Serializable>::Size::USIZE;
+        let (v, cls) = gen_u128(src, bits);
+        let cj = json!({"type": name, "integer": v.to_string(), "class": cls});
+        let fits = bits >= 128 || v < (1u128 << bits);
+        let what;
+        match src.below(3) {
+            0 => {
+                what = "try_from-u128";
+                match catch(|| <B as TryFrom<u128>>::try_from(v)).map_err(|(loc, m)| violation(format!("conversion-panics:{what}:{name}"), format!("{name}::try_from({v}) panicked at {loc}: {m}"), cj.clone()))? {
+                    Ok(b) => {
+                        if !fits {
+                            return Err(violation(format!("try_from-u128-accepts-too-wide:{name}"), format!("{name}::try_from({v}) accepted an integer of more than {bits} bits"), cj));
+                        }
+                        if enc(&b) != ref_bytes(v, bits, size) || B::deserialize(GenericArray::from_slice(&enc(&b))).ok() != Some(b) || b.as_u128() != v {
+                            known_or_violation(env, &format!("noncanonical-produced:{what}:{name}"), format!("{name}::try_from({v}) encodes to {:?}, expected {:?}; as_u128 = {}", enc(&b), ref_bytes(v, bits, size), b.as_u128()), cj.clone())?;
+                        }
+                    }
+                    Err(_) => {
+                        if fits {
+                            return Err(violation(format!("try_from-u128-rejects-in-range:{name}"), format!("{name}::try_from({v}) rejected an integer of at most {bits} bits"), cj));
+                        }
+                    }
+                }
+            }
+            1 => {
+                what = "truncate_from";
+                let b = catch(|| B::truncate_from(v)).map_err(|(loc, m)| violation(format!("conversion-panics:{what}:{name}"), format!("{name}::truncate_from({v}) panicked at {loc}: {m}"), cj.clone()))?;
+                if enc(&b) != ref_bytes(v, bits, size) || B::deserialize(GenericArray::from_slice(&enc(&b))).ok() != Some(b) {
+                    known_or_violation(env, &format!("noncanonical-produced:{what}:{name}"), format!("{name}::truncate_from({v}) encodes to {:?}, expected {:?}", enc(&b), ref_bytes(v, bits, size)), cj.clone())?;
+                }
+            }
+            _ => {
+                what = "vec-boolean";
+                let len = match src.below(4) {
+                    0 => bits.saturating_sub(1),
+                    1 => bits + 1,
+                    _ => bits,
+                };
+                let items: Vec<Boolean> = (0..len).map(|i| Boolean::from(i < 128 && (v >> i) & 1 == 1)).collect();
+                let r = catch(|| <B as TryFrom<Vec<Boolean>>>::try_from(items)).map_err(|(loc, m)| violation(format!("conversion-panics:{what}:{name}"), format!("{name}::try_from(Vec<Boolean> of {len}) panicked at {loc}: {m}"), cj.clone()))?;
+                match r {
+                    Ok(b) => {
+                        if len != bits {
+                            return Err(violation(format!("vec-boolean-wrong-length-accepted:{name}"), format!("{name}::try_from(Vec<Boolean>) accepted {len} items for {bits} bits"), cj));
+                        }
+                        if enc(&b) != ref_bytes(v, bits, size) {
+                            known_or_violation(env, &format!("noncanonical-produced:{what}:{name}"), format!("{name}::try_from(Vec<Boolean>) encodes to {:?}, expected {:?}", enc(&b), ref_bytes(v, bits, size)), cj.clone())?;
+                        }
+                    }
+                    Err(_) => {
+                        if len == bits {
+                            return Err(violation(format!("vec-boolean-rejected:{name}"), format!("{name}::try_from(Vec<Boolean>) rejected exactly {bits} items"), cj));
+                        }
+                    }
+                }
+            }
+        }
+        // re-layout as 32-bit words of the value with the low bits of v
+        let b = B::truncate_from(v);
+        let words: Vec<Gf32Bit> = match catch(|| <B as TryInto<Vec<Gf32Bit>>>::try_into(b)) {
+            Ok(Ok(w)) => w,
+            Ok(Err(_)) => return Err(violation(format!("gf32-words-error:{name}"), format!("Vec<Gf32Bit>::try_from({name}) failed for {b:?}"), cj)),
+            Err((loc, m)) => return Err(violation(format!("conversion-panics:gf32-words:{name}"), format!("Vec<Gf32Bit>::try_from({name}) panicked at {loc}: {m}"), cj)),
+        };
+        let mut cat: Vec<u8> = words.iter().flat_map(|w| enc(w)).collect();
+        let mut want = enc(&b);
+        want.resize(want.len().div_ceil(4) * 4, 0);
+        // a lossless re-layout: the words carry exactly the encoding (zero-extended to whole words)
+        if cat.len() < want.len() {
+            cat.resize(want.len(), 0);
+        }
+        if cat != want {
+            return Err(violation(format!("gf32-words-differ:{name}"), format!("the 32-bit words of {b:?} concatenate to {cat:?}, its encoding (zero-extended) is {want:?}"), cj));
+        }
+        Ok((what, cls, digest(&(v, what))))
+    }
+    const NAMES: [&str; 12] = ["BA3", "BA4", "BA5", "BA6", "BA7", "BA8", "BA16", "BA20", "BA32", "BA64", "BA96", "BA112"];
+    let t = src.idx(12);
+    let n = NAMES[t];
+    let (what, cls, dg) = match t {
+        0 => small::<BA3>(env, n, src),
+        1 => small::<BA4>(env, n, src),
+        2 => small::<BA5>(env, n, src),
+        3 => small::<BA6>(env, n, src),
+        4 => small::<BA7>(env, n, src),
+        5 => small::<BA8>(env, n, src),
+        6 => small::<BA16>(env, n, src),
+        7 => small::<BA20>(env, n, src),
+        8 => small::<BA32>(env, n, src),
+        9 => small::<BA64>(env, n, src),
+        10 => small::<BA96>(env, n, src),
+        _ => small::<BA112>(env, n, src),
+    }?;
+    Ok(CaseOk::new(cls != "zero", &(t, dg), json!({"type": n, "conversion": what, "integer-class": cls}))
+        .label(format!("type:{n}")).label(format!("conversion:{what}")).label(format!("integer:{cls}")))
+}
+
 pub fn subs(_env: &Env) -> Vec<Sub> {
     let n_small = small_types(3).len() as u64;
     vec![
@@ -2688,6 +2823,8 @@ pub fn subs(_env: &Env) -> Vec<Sub> {
             "values produced by the crate's own operations on BA3..BA256 - expand, !, +, -, *, * Boolean, neg, from_fn, from_iter, try_from(&BitSlice), and expand / ! of shares - from all-zero / all-one / random operands: the produced value equals, and encodes exactly like, the value built bit by bit (padding zero), and the decoder accepts it"),
         Sub::random("slice_decoders", 16, 60_000, 2_000_000, slice_decoders,
             "the second byte-string decoder of the Galois-field types, TryFrom<&[u8]>, for Gf2/3/8/9/20/32/40 over slices of every length 0..=Size+1 filled with {zero, ones, random, one bit / any value in the last byte, only the last byte}: never panics; the encoding of an accepted value is accepted by deserialize and returns that value; a slice of the full encoding length is accepted only if deserialize accepts the same bytes as the same value (rejection is always allowed); non-trivial = non-empty slice"),
+        Sub::random("conversions", 16, 60_000, 2_000_000, conversions,
+            "BA3..BA112: try_from(u128) accepts exactly the integers of at most BITS bits and, like truncate_from, yields the value whose encoding is the little-endian low BITS bits (integers from {0, max, max+1, max+2, u128::MAX, single bit, random}); try_from(Vec<Boolean>) accepts exactly BITS items; Vec<Gf32Bit>::try_from(array) (the re-layout hashed by the malicious shuffle) concatenates to the zero-extended encoding of the array; no panic; non-trivial = non-zero integer"),
         Sub::random("roundtrip", 200, 800_000, 15_000_000, roundtrip,
             "every type of the table: a value built through the public constructors (truncate_from of boundary-biased integers, bit-by-bit collection, Scalar/basepoint multiples, hashing, FromRandom, share and array constructors) encodes to the reference bytes (little-endian integer, components concatenated), serialize overwrites all Size bytes, and the encoding decodes to the same value; non-trivial = some non-zero byte"),
         Sub::random("transposes", 64, 40_000, 1_000_000, transposes,
